@@ -508,7 +508,8 @@ def revisit_rule(ctx, syn):
                 for nd in find(lp["body"], "if"):
                     if any(x is c for x in walk(nd["then"])) and re.search(r"\bhas\((self,)?%s\)|\.has\(%s\)" % (arg, arg), unparse(nd["cond"])):
                         guarded = True
-                # an annotation the loop body has just fetched and edited is known to be alive
+                # an annotation the loop body has just fetched and edited: whether that fetch established presence in the same
+                # iteration is decided on the MIR by C02.PRESENT (this syntactic rule once trusted it blindly and hid a defect)
                 edited = re.search(r"get_mut\(%s\)" % arg, unparse(lp["body"])) is not None and "postlen" in unparse(lp["body"])
                 key = "%s|loop-over:%s" % (f.qual, re.sub(r"\W+", "_", unparse(lp["iter"]))[:40])
                 r.hit(key, sample={"function": f.qual, "iterates": unparse(lp["iter"])[:50], "guarded": guarded or edited})
